@@ -1,11 +1,573 @@
-//! (not built yet)
-use serde_json::Value;
-use vcore::Run;
+//! C06 — stream termination signals carry their codes end to end.
 
-pub fn run(run: &Run) {
-    run.inconclusive("check not built yet");
+use crate::common::*;
+use proptest::prelude::*;
+use serde::{Deserialize, Serialize};
+use serde_json::Value;
+use std::sync::Arc;
+use std::time::Duration;
+use vcore::{prop_search, Outcome, Run, Search};
+use wire::*;
+use wtransport::error::{StreamReadError, StreamWriteError};
+use wtransport::{Connection, RecvStream, SendStream, VarInt};
+
+const RULE: &str = "case = runtime flavour x peer pair in {wtransport<->wtransport, raw peer signals / wtransport observes, wtransport signals / raw peer observes} x opener role x stream kind x direction of a bidirectional stream x signal in {reset(c), stop(c), finish} x phase in {before any data, after k bytes, after finish} x code c in {0, 63, 64, 16383, 16384, 2^30-1, 2^30, 2^62-1, random 62-bit}; plus 'finish only once acknowledged' through the UDP relay (black hole before writing). Oracle: reset(c) -> the peer's reads yield a prefix of the written bytes then Reset(c); stop(c) -> the peer's write (retried until the signal arrived), finish and stopped report Stopped(c); finish -> all bytes then end-of-stream and finish() returns Ok; codes on the wire equal c. Non-trivial: code >= 64 or phase other than 'before any data'; distinct = distinct case";
+
+#[derive(Clone, Copy, Debug, Serialize, Deserialize, PartialEq)]
+pub enum Signal {
+    Reset,
+    Stop,
+    Finish,
 }
 
-pub fn replay(_run: &Run, _doc: &Value) -> bool {
-    false
+#[derive(Clone, Debug, Serialize, Deserialize)]
+pub struct Case {
+    pub flavor: u8,
+    /// 0 wt<->wt, 1 raw signals / wt observes, 2 wt signals / raw observes, 3 finish-needs-ack (relay)
+    pub pair: u8,
+    pub opener_is_client: bool,
+    pub bidi: bool,
+    /// for bidi streams: exercise the direction from the accepting side to the opener
+    pub reverse: bool,
+    pub signal: Signal,
+    pub code: u64,
+    pub phase: u8,
+    pub k: u16,
+}
+
+fn code_strategy() -> impl Strategy<Value = u64> {
+    prop_oneof![
+        4 => proptest::sample::select(vec![0u64, 63, 64, 16383, 16384, (1 << 30) - 1, 1 << 30, (1u64 << 62) - 1]),
+        3 => 0u64..(1u64 << 62),
+        1 => any::<u32>().prop_map(|v| v as u64),
+    ]
+}
+
+pub fn case_strategy() -> impl Strategy<Value = Case> {
+    (0u8..3, prop_oneof![4 => Just(0u8), 3 => Just(1u8), 3 => Just(2u8), 1 => Just(3u8)], any::<bool>(), any::<bool>(), any::<bool>(), prop_oneof![Just(Signal::Reset), Just(Signal::Stop), Just(Signal::Finish)], code_strategy(), 0u8..3, 1u16..3000)
+        .prop_map(|(flavor, pair, opener_is_client, bidi, reverse, signal, code, phase, k)| Case { flavor, pair, opener_is_client, bidi, reverse: reverse && bidi, signal, code, phase, k })
+}
+
+fn data(k: usize) -> Vec<u8> {
+    payload(4242, k, &[])
+}
+
+/// A pair of application-level halves: the writer's send half and the reader's recv half of the
+/// direction under test.
+async fn open_wt_wt(case: &Case) -> Res<(SendStream, RecvStream, Box<dyn std::any::Any + Send>)> {
+    let p = wt_pair(&Tuning::default(), &Tuning::default()).await?;
+    let (opener, acceptor) = if case.opener_is_client { (p.client.clone(), p.server.clone()) } else { (p.server.clone(), p.client.clone()) };
+    if case.bidi {
+        let (mut os, or) = opener.open_bi().await.map_err(|e| conn_err(&e))?.await.map_err(|e| e.to_string())?;
+        // make the stream visible to the acceptor
+        os.write_all(b"!").await.map_err(|e| e.to_string())?;
+        let (acs, mut acr) = tokio::time::timeout(Duration::from_secs(5), acceptor.accept_bi()).await.map_err(|_| "accept_bi timeout")?.map_err(|e| conn_err(&e))?;
+        let mut b = [0u8; 1];
+        acr.read_exact(&mut b).await.map_err(|e| e.to_string())?;
+        if case.reverse {
+            Ok((acs, or, Box::new((p, os, acr))))
+        } else {
+            Ok((os, acr, Box::new((p, acs, or))))
+        }
+    } else {
+        let mut os = opener.open_uni().await.map_err(|e| conn_err(&e))?.await.map_err(|e| e.to_string())?;
+        os.write_all(b"!").await.map_err(|e| e.to_string())?;
+        let mut acr = tokio::time::timeout(Duration::from_secs(5), acceptor.accept_uni()).await.map_err(|_| "accept_uni timeout")?.map_err(|e| conn_err(&e))?;
+        let mut b = [0u8; 1];
+        acr.read_exact(&mut b).await.map_err(|e| e.to_string())?;
+        Ok((os, acr, Box::new(p)))
+    }
+}
+
+async fn read_until_end(r: &mut RecvStream) -> (Vec<u8>, Result<(), StreamReadError>) {
+    let mut out = Vec::new();
+    let mut buf = [0u8; 512];
+    loop {
+        match r.read(&mut buf).await {
+            Ok(Some(n)) => out.extend_from_slice(&buf[..n]),
+            Ok(None) => return (out, Ok(())),
+            Err(e) => return (out, Err(e)),
+        }
+    }
+}
+
+async fn exec_wt_wt(case: Arc<Case>) -> CaseResult {
+    let (mut w, mut r, _keep) = match open_wt_wt(&case).await {
+        Ok(x) => x,
+        Err(e) => return CaseResult::Skip(e),
+    };
+    let code = VarInt::try_from_u64(case.code).unwrap();
+    let written = if case.phase >= 1 { data(case.k as usize) } else { Vec::new() };
+    let bound = Duration::from_secs(5);
+    match case.signal {
+        Signal::Finish => {
+            if w.write_all(&written).await.is_err() {
+                return viol("C06:finish:write", "write failed on a healthy stream");
+            }
+            let reader = tokio::spawn(async move { read_until_end(&mut r).await });
+            match tokio::time::timeout(bound, w.finish()).await {
+                Ok(Ok(())) => {}
+                Ok(Err(e)) => return viol("C06:finish:error", format!("finish() = {e:?} on a healthy stream")),
+                Err(_) => return CaseResult::Timeout("finish() never returned".into()),
+            }
+            match tokio::time::timeout(bound, reader).await {
+                Ok(Ok((got, Ok(())))) => {
+                    if got != written {
+                        return viol("C06:finish:bytes", format!("reader got {} bytes, writer wrote {}", got.len(), written.len()));
+                    }
+                }
+                Ok(Ok((_, Err(e)))) => return viol("C06:finish:reader-error", format!("reader got {e:?} instead of end-of-stream")),
+                _ => return CaseResult::Timeout("reader never saw end-of-stream".into()),
+            }
+            // finish twice / write after finish must not succeed silently
+            if w.write_all(b"x").await.is_ok() {
+                return viol("C06:finish:write-after", "write succeeded after finish");
+            }
+        }
+        Signal::Reset => {
+            if w.write_all(&written).await.is_err() {
+                return viol("C06:reset:write", "write failed before reset");
+            }
+            let mut finished = false;
+            if case.phase == 2 {
+                let reader_done = tokio::time::timeout(bound, w.finish()).await;
+                if !matches!(reader_done, Ok(Ok(()))) {
+                    return viol("C06:finish:error", format!("finish() before reset = {:?}", reader_done.map(|r| r.map_err(|e| format!("{e:?}")))));
+                }
+                finished = true;
+            }
+            let reset_res = w.reset(code);
+            if !finished && reset_res.is_err() {
+                return viol("C06:reset:refused", "reset() failed on an open stream");
+            }
+            let (got, end) = match tokio::time::timeout(bound, read_until_end(&mut r)).await {
+                Ok(x) => x,
+                Err(_) => return CaseResult::Timeout("reader never saw the reset".into()),
+            };
+            if !written.starts_with(&got) {
+                return viol("C06:reset:bytes", format!("reader got bytes that are not a prefix of what was written ({} bytes)", got.len()));
+            }
+            match (finished && reset_res.is_err(), end) {
+                (true, Ok(())) => {
+                    if got != written {
+                        return viol("C06:finish:bytes", "stream finished before the refused reset but bytes are missing");
+                    }
+                }
+                (_, Err(StreamReadError::Reset(c))) => {
+                    if c.into_inner() != case.code {
+                        return viol("C06:reset:code", format!("reader saw Reset({c}), sender reset with {}", case.code));
+                    }
+                }
+                (_, other) => return viol("C06:reset:not-reported", format!("after reset({}) the reader ended with {:?}", case.code, other)),
+            }
+        }
+        Signal::Stop => {
+            if case.phase >= 1 {
+                if w.write_all(&written).await.is_err() {
+                    return viol("C06:stop:write", "write failed before stop");
+                }
+            }
+            let mut finished = false;
+            if case.phase == 2 {
+                match tokio::time::timeout(bound, w.finish()).await {
+                    Ok(Ok(())) => finished = true,
+                    other => return viol("C06:finish:error", format!("finish() before stop = {:?}", other.map(|r| r.map_err(|e| format!("{e:?}"))))),
+                }
+            } else if case.phase == 1 {
+                // the receiver reads some bytes before stopping
+                let mut b = vec![0u8; (case.k as usize).min(7).max(1)];
+                let _ = tokio::time::timeout(bound, r.read(&mut b)).await;
+            }
+            r.stop(code);
+            if finished {
+                match tokio::time::timeout(bound, w.stopped()).await {
+                    Ok(StreamWriteError::Closed) => {}
+                    Ok(other) => return viol("C06:stop:after-finish", format!("stopped() after a completed finish reported {other:?}")),
+                    Err(_) => return CaseResult::Timeout("stopped() hangs after finish".into()),
+                }
+            } else {
+                match tokio::time::timeout(bound, w.stopped()).await {
+                    Ok(StreamWriteError::Stopped(c)) if c.into_inner() == case.code => {}
+                    Ok(other) => return viol("C06:stop:code", format!("stopped() reported {other:?}, receiver stopped with {}", case.code)),
+                    Err(_) => return CaseResult::Timeout("stopped() never reported the stop".into()),
+                }
+                match w.write_all(b"after").await {
+                    Err(StreamWriteError::Stopped(c)) if c.into_inner() == case.code => {}
+                    other => return viol("C06:stop:write", format!("write after stop({}) = {:?}", case.code, other)),
+                }
+                match tokio::time::timeout(bound, w.finish()).await {
+                    Ok(Err(StreamWriteError::Stopped(c))) if c.into_inner() == case.code => {}
+                    Ok(other) => return viol("C06:stop:finish", format!("finish after stop({}) = {:?}", case.code, other)),
+                    Err(_) => return CaseResult::Timeout("finish hangs after stop".into()),
+                }
+            }
+        }
+    }
+    pass(&case)
+}
+
+fn pass(case: &Case) -> CaseResult {
+    let label = match (case.pair % 4, case.signal) {
+        (3, _) => "finish-needs-ack",
+        (_, Signal::Reset) => "signal:reset",
+        (_, Signal::Stop) => "signal:stop",
+        (_, Signal::Finish) => "signal:finish",
+    };
+    let pair = match case.pair % 4 {
+        0 => "pair:wt-wt",
+        1 => "pair:raw-signals",
+        2 => "pair:wt-signals",
+        _ => "pair:relay",
+    };
+    CaseResult::Pass { nontrivial: case.code >= 64 || case.phase != 0, labels: vec![label, pair] }
+}
+
+/// The raw peer raises the signal, the wtransport application observes it.
+async fn exec_raw_signals(case: Arc<Case>) -> CaseResult {
+    let wt_is_server = !case.opener_is_client; // the raw peer is the other role
+    let bound = Duration::from_secs(5);
+    let (conn, raw_conn, session, _keep): (Connection, quinn::Connection, u64, Box<dyn std::any::Any + Send>) = if wt_is_server {
+        match raw_client_vs_wt_server(&Tuning::default(), &Tuning::default()).await {
+            Ok(p) => (p.server.clone(), p.raw.conn.clone(), p.raw.session_id, Box::new(p)),
+            Err(e) => return CaseResult::Skip(e),
+        }
+    } else {
+        match wt_client_vs_raw_server(&Tuning::default(), &Tuning::default()).await {
+            Ok(p) => (p.client.clone(), p.raw.conn.clone(), p.raw.session_id, Box::new(p)),
+            Err(e) => return CaseResult::Skip(e),
+        }
+    };
+    let code = vi(case.code);
+    let written = if case.phase >= 1 { data(case.k as usize) } else { Vec::new() };
+    match case.signal {
+        Signal::Reset | Signal::Finish => {
+            // raw opens a WT stream towards the application, writes, then resets / finishes
+            let mut s = if case.bidi {
+                match raw_open_wt_bi(&raw_conn, session).await {
+                    Ok((s, _r)) => s,
+                    Err(e) => return CaseResult::Skip(e),
+                }
+            } else {
+                match raw_open_wt_uni(&raw_conn, session).await {
+                    Ok(s) => s,
+                    Err(e) => return CaseResult::Skip(e),
+                }
+            };
+            let _ = s.write_all(&written).await;
+            let mut r = if case.bidi {
+                match tokio::time::timeout(bound, conn.accept_bi()).await {
+                    Ok(Ok((_s, r))) => r,
+                    _ => return CaseResult::Timeout("stream not delivered".into()),
+                }
+            } else {
+                match tokio::time::timeout(bound, conn.accept_uni()).await {
+                    Ok(Ok(r)) => r,
+                    _ => return CaseResult::Timeout("stream not delivered".into()),
+                }
+            };
+            if case.signal == Signal::Reset {
+                let _ = s.reset(code);
+            } else {
+                let _ = s.finish();
+            }
+            let (got, end) = match tokio::time::timeout(bound, read_until_end(&mut r)).await {
+                Ok(x) => x,
+                Err(_) => return CaseResult::Timeout("reader never saw the end of the stream".into()),
+            };
+            if !written.starts_with(&got) {
+                return viol("C06:reset:bytes", "application read bytes that are not a prefix of what the peer wrote");
+            }
+            match (case.signal, end) {
+                (Signal::Reset, Err(StreamReadError::Reset(c))) if c.into_inner() == case.code => {}
+                (Signal::Finish, Ok(())) if got == written => {}
+                (sig, other) => return viol(format!("C06:{}:observed", if sig == Signal::Reset { "reset" } else { "finish" }), format!("peer raised {:?}({}), application's read ended with {:?} after {} of {} bytes", sig, case.code, other, got.len(), written.len())),
+            }
+        }
+        Signal::Stop => {
+            // the application opens a stream, the raw peer stops it
+            let (mut w, raw_recv): (SendStream, quinn::RecvStream) = if case.bidi {
+                let (w, _r) = match conn.open_bi().await {
+                    Ok(o) => match o.await {
+                        Ok(x) => x,
+                        Err(e) => return CaseResult::Skip(e.to_string()),
+                    },
+                    Err(e) => return CaseResult::Skip(conn_err(&e)),
+                };
+                match tokio::time::timeout(bound, raw_conn.accept_bi()).await {
+                    Ok(Ok((_s, r))) => (w, r),
+                    _ => return CaseResult::Skip("raw accept_bi".into()),
+                }
+            } else {
+                let w = match conn.open_uni().await {
+                    Ok(o) => match o.await {
+                        Ok(x) => x,
+                        Err(e) => return CaseResult::Skip(e.to_string()),
+                    },
+                    Err(e) => return CaseResult::Skip(conn_err(&e)),
+                };
+                // the endpoint's control stream is also a uni stream: pick the WT one
+                let mut found = None;
+                for _ in 0..3 {
+                    match tokio::time::timeout(bound, raw_conn.accept_uni()).await {
+                        Ok(Ok(mut r)) => {
+                            let mut b = [0u8; 1];
+                            match r.read_exact(&mut b).await {
+                                Ok(()) if b[0] == 0x40 => {
+                                    found = Some(r);
+                                    break;
+                                }
+                                _ => {
+                                    // control / other stream: keep it open
+                                    std::mem::forget(r);
+                                }
+                            }
+                        }
+                        _ => break,
+                    }
+                }
+                match found {
+                    Some(r) => (w, r),
+                    None => return CaseResult::Skip("raw peer did not find the WT uni stream".into()),
+                }
+            };
+            let mut raw_recv = raw_recv;
+            if case.phase >= 1 {
+                if w.write_all(&written).await.is_err() {
+                    return viol("C06:stop:write", "write failed before stop");
+                }
+            }
+            if raw_recv.stop(code).is_err() {
+                return CaseResult::Skip("raw stop failed".into());
+            }
+            match tokio::time::timeout(bound, w.stopped()).await {
+                Ok(StreamWriteError::Stopped(c)) if c.into_inner() == case.code => {}
+                Ok(other) => return viol("C06:stop:code", format!("stopped() reported {other:?}, peer stopped with {}", case.code)),
+                Err(_) => return CaseResult::Timeout("stopped() never reported the peer's stop".into()),
+            }
+            match w.write_all(b"after").await {
+                Err(StreamWriteError::Stopped(c)) if c.into_inner() == case.code => {}
+                other => return viol("C06:stop:write", format!("write after the peer's stop({}) = {:?}", case.code, other)),
+            }
+            match tokio::time::timeout(bound, w.finish()).await {
+                Ok(Err(StreamWriteError::Stopped(c))) if c.into_inner() == case.code => {}
+                Ok(other) => return viol("C06:stop:finish", format!("finish after the peer's stop({}) = {:?}", case.code, other)),
+                Err(_) => return CaseResult::Timeout("finish hangs after stop".into()),
+            }
+        }
+    }
+    pass(&case)
+}
+
+/// The wtransport application raises the signal, the raw peer observes the code on the wire.
+async fn exec_wt_signals(case: Arc<Case>) -> CaseResult {
+    let wt_is_server = !case.opener_is_client;
+    let bound = Duration::from_secs(5);
+    let (conn, raw_conn, session, _keep): (Connection, quinn::Connection, u64, Box<dyn std::any::Any + Send>) = if wt_is_server {
+        match raw_client_vs_wt_server(&Tuning::default(), &Tuning::default()).await {
+            Ok(p) => (p.server.clone(), p.raw.conn.clone(), p.raw.session_id, Box::new(p)),
+            Err(e) => return CaseResult::Skip(e),
+        }
+    } else {
+        match wt_client_vs_raw_server(&Tuning::default(), &Tuning::default()).await {
+            Ok(p) => (p.client.clone(), p.raw.conn.clone(), p.raw.session_id, Box::new(p)),
+            Err(e) => return CaseResult::Skip(e),
+        }
+    };
+    let code = VarInt::try_from_u64(case.code).unwrap();
+    let written = if case.phase >= 1 { data(case.k as usize) } else { Vec::new() };
+    match case.signal {
+        Signal::Stop => {
+            // raw opens a stream and writes; the application accepts and stops it
+            let mut s = if case.bidi {
+                match raw_open_wt_bi(&raw_conn, session).await {
+                    Ok((s, _)) => s,
+                    Err(e) => return CaseResult::Skip(e),
+                }
+            } else {
+                match raw_open_wt_uni(&raw_conn, session).await {
+                    Ok(s) => s,
+                    Err(e) => return CaseResult::Skip(e),
+                }
+            };
+            let _ = s.write_all(&written).await;
+            let r = if case.bidi {
+                match tokio::time::timeout(bound, conn.accept_bi()).await {
+                    Ok(Ok((_s, r))) => r,
+                    _ => return CaseResult::Timeout("stream not delivered".into()),
+                }
+            } else {
+                match tokio::time::timeout(bound, conn.accept_uni()).await {
+                    Ok(Ok(r)) => r,
+                    _ => return CaseResult::Timeout("stream not delivered".into()),
+                }
+            };
+            r.stop(code);
+            match tokio::time::timeout(bound, s.stopped()).await {
+                Ok(Ok(Some(c))) if c.into_inner() == case.code => {}
+                Ok(other) => return viol("C06:stop:wire-code", format!("application stopped with {}, the peer saw {:?}", case.code, other)),
+                Err(_) => return CaseResult::Timeout("the peer never saw STOP_SENDING".into()),
+            }
+        }
+        Signal::Reset | Signal::Finish => {
+            let mut w = if case.bidi {
+                match conn.open_bi().await {
+                    Ok(o) => match o.await {
+                        Ok((w, _r)) => w,
+                        Err(e) => return CaseResult::Skip(e.to_string()),
+                    },
+                    Err(e) => return CaseResult::Skip(conn_err(&e)),
+                }
+            } else {
+                match conn.open_uni().await {
+                    Ok(o) => match o.await {
+                        Ok(w) => w,
+                        Err(e) => return CaseResult::Skip(e.to_string()),
+                    },
+                    Err(e) => return CaseResult::Skip(conn_err(&e)),
+                }
+            };
+            let rec = Recorder::start(&raw_conn);
+            if w.write_all(&written).await.is_err() {
+                return viol("C06:reset:write", "write failed before the signal");
+            }
+            let id = w.id().into_u64();
+            if case.signal == Signal::Reset {
+                if w.reset(code).is_err() {
+                    return viol("C06:reset:refused", "reset() failed on an open stream");
+                }
+                let seen = rec.wait(bound, |log| log.streams.get(&id).map(|s| s.reset.is_some() || s.fin).unwrap_or(false)).await;
+                rec.stop();
+                if !seen {
+                    return CaseResult::Timeout("the peer never saw RESET_STREAM".into());
+                }
+                let (streams, _) = rec.snapshot();
+                let st = &streams[&id];
+                if st.reset != Some(case.code) {
+                    return viol("C06:reset:wire-code", format!("application reset with {}, the peer saw reset={:?} fin={}", case.code, st.reset, st.fin));
+                }
+            } else {
+                match tokio::time::timeout(bound, w.finish()).await {
+                    Ok(Ok(())) => {}
+                    other => return viol("C06:finish:error", format!("finish() = {:?}", other.map(|r| r.map_err(|e| format!("{e:?}"))))),
+                }
+                let seen = rec.wait(bound, |log| log.streams.get(&id).map(|s| s.fin).unwrap_or(false)).await;
+                rec.stop();
+                if !seen {
+                    return CaseResult::Timeout("the peer never saw FIN".into());
+                }
+                let (streams, _) = rec.snapshot();
+                let mut expect = if case.bidi { refcodec::enc_bi_header_wt(session) } else { refcodec::enc_uni_header_wt(session) };
+                expect.extend_from_slice(&written);
+                if streams[&id].bytes != expect {
+                    return viol("C06:finish:bytes", "bytes seen by the peer differ from preamble + written bytes");
+                }
+            }
+        }
+    }
+    pass(&case)
+}
+
+/// finish() succeeds only once the peer has acknowledged everything.
+async fn exec_finish_needs_ack(case: Arc<Case>) -> CaseResult {
+    let t = Tuning { initial_rtt_ms: Some(10), ..Default::default() };
+    let server_ep = wt_server(&t);
+    let addr = server_ep.local_addr().unwrap();
+    let relay = Relay::start(addr, case.code).await;
+    let client_ep = wt_client(&t);
+    let accept = async {
+        let incoming = server_ep.accept().await;
+        let req = incoming.await.map_err(|e| format!("incoming: {e}"))?;
+        req.accept().await.map_err(|e| format!("accept: {e}"))
+    };
+    let connect = async { client_ep.connect(url_for(relay.addr, "/")).await.map_err(|e| format!("connect: {e}")) };
+    let (s, c) = tokio::join!(accept, connect);
+    let (server, client) = match (s, c) {
+        (Ok(s), Ok(c)) => (s, c),
+        (Err(e), _) | (_, Err(e)) => return CaseResult::Skip(e),
+    };
+    let mut w = match client.open_uni().await {
+        Ok(o) => match o.await {
+            Ok(w) => w,
+            Err(e) => return CaseResult::Skip(e.to_string()),
+        },
+        Err(e) => return CaseResult::Skip(conn_err(&e)),
+    };
+    // make sure the stream exists on both sides, then cut the client -> server direction
+    if w.write_all(b"!").await.is_err() {
+        return CaseResult::Skip("write".into());
+    }
+    let mut r = match tokio::time::timeout(Duration::from_secs(5), server.accept_uni()).await {
+        Ok(Ok(r)) => r,
+        _ => return CaseResult::Skip("accept_uni".into()),
+    };
+    let mut b = [0u8; 1];
+    let _ = r.read_exact(&mut b).await;
+    tokio::time::sleep(Duration::from_millis(30)).await;
+    relay.blackhole(true, false);
+    let body = data(case.k as usize);
+    if w.write_all(&body).await.is_err() {
+        return viol("C06:finish:write", "write failed");
+    }
+    let fin = tokio::spawn(async move { w.finish().await });
+    tokio::time::sleep(Duration::from_millis(300)).await;
+    if fin.is_finished() {
+        return viol("C06:finish:before-ack", "finish() returned while every packet towards the peer was being dropped (nothing can have been acknowledged)");
+    }
+    relay.blackhole(false, false);
+    match tokio::time::timeout(Duration::from_secs(8), fin).await {
+        Ok(Ok(Ok(()))) => {}
+        Ok(other) => return viol("C06:finish:error", format!("finish() after the black hole was lifted = {other:?}")),
+        Err(_) => return CaseResult::Timeout("finish() did not return after the black hole was lifted".into()),
+    }
+    match tokio::time::timeout(Duration::from_secs(5), read_until_end(&mut r)).await {
+        Ok((got, Ok(()))) if got == body => {}
+        Ok((got, end)) => return viol("C06:finish:bytes", format!("after finish() = Ok the reader has {} of {} bytes, end {:?}", got.len(), body.len(), end)),
+        Err(_) => return CaseResult::Timeout("reader did not reach end-of-stream".into()),
+    }
+    pass(&case)
+}
+
+pub fn exec(case: &Case) -> CaseResult {
+    let c = Arc::new(case.clone());
+    let fut = async move {
+        match c.pair % 4 {
+            0 => exec_wt_wt(c).await,
+            1 => exec_raw_signals(c).await,
+            2 => exec_wt_signals(c).await,
+            _ => exec_finish_needs_ack(c).await,
+        }
+    };
+    match run_on(case.flavor, Duration::from_secs(40), fut) {
+        Some(r) => r,
+        None => CaseResult::Timeout("case did not finish in 40 s".into()),
+    }
+}
+
+pub fn run(run: &Run) {
+    run.set_rule(RULE);
+    run.assume("one terminal signal per stream direction; a stop raised after the sender's finish completed has no effect (stopped() then reports Closed)");
+    prop_search(
+        run,
+        Search { check: "signals", cases: run.tier.pick(500, 6000), workers: 8, max_shrink_iters: 60 },
+        case_strategy,
+        |c| judge(|| exec(c), true, "C06:signal-lost"),
+        |c| serde_json::to_value(c).unwrap(),
+    );
+    for l in ["signal:reset", "signal:stop", "signal:finish", "finish-needs-ack", "pair:wt-wt", "pair:raw-signals", "pair:wt-signals"] {
+        run.essential(l);
+    }
+}
+
+pub fn replay(run: &Run, doc: &Value) -> bool {
+    let Ok(case) = serde_json::from_value::<Case>(doc["case"].clone()) else {
+        return false;
+    };
+    run.eval("signals", true, 1);
+    for _ in 0..3 {
+        if let Outcome::Fail { signature, message } = judge(|| exec(&case), true, "C06:signal-lost") {
+            run.fail("signals", &signature, &message, doc["case"].clone());
+            break;
+        }
+    }
+    true
 }
